@@ -111,8 +111,8 @@ ADDED = {
  "C01": "Also: a fresh manager is published only after ruling out an existing one for the key; a pooled manager's key is zeroed; GetOrNewDB is check-then-act under one mutex. A key's fast slot is cleared only after its manager was tombstoned or put into the slow map.",
  "C02": "Also: RemoveLock keeps the LockId index in step; cancelWaitLock selects only not-yet-answered queue entries. The holder lookup by LockId returns only live matching entries and reports a miss only after examining the inline slice and the overflow index. Every grant that adds a holder consults the holder index for the request's LockId first (known findings: wakeUpWaitLock does not - two queued requests with one LockId become two holds).",
  "C04": "Also: the FIFO-to-priority-ring switch condition and the arrival-order migration; the priority bypass is decided on path facts whether or not a helper holds it. A direct grant of a new holder in Lock is followed by the wake-up pass unless the waited flag was tested false; a queued request that times out or is cancelled is followed by the wake-up pass (defect repaired).",
- "C05": "Also: sweepers re-arm an entry only after testing its tombstone clear. A millisecond period handed to the second wheels is rounded up, not truncated (defect repaired: a 3999 ms wait was answered after 3.2 s).",
- "C06": "Also: the long-table entry is removed under the deadline read before the update; re-arm only after the tombstone test; recycled long-wait buckets are re-initialised. The millisecond sweep must consult a field an update rewrites before ending a hold (known finding: it does not). A millisecond period handed to the second wheels is rounded up, not truncated (defect repaired).",
+ "C05": "Also: sweepers re-arm an entry only after testing its tombstone clear. A millisecond period handed to the second wheels is rounded up, not truncated (defect repaired: a 3999 ms wait was answered after 3.2 s). SSA dominance rule: the millisecond sweep's hand-over comparison covers every Timeout >= the wheel modulus taken from the filing function (C05/R9).",
+ "C06": "Also: the long-table entry is removed under the deadline read before the update; re-arm only after the tombstone test; recycled long-wait buckets are re-initialised. The millisecond sweep must consult a field an update rewrites before ending a hold (known finding: it does not). A millisecond period handed to the second wheels is rounded up, not truncated (defect repaired). SSA dominance rule: the millisecond expiry sweep's hand-over comparison covers every Expried >= the wheel modulus (C06/R10).",
  "C07": "Also: log-file lists are snapshot-first; UnLock clears the persisted mark only with removal. A pooled Lock object enters or leaves the pool with its persisted mark cleared. A hold's persistence mode is never copied from another hold (known finding: later holders of a shared key inherit the first holder's mode). The expiry written to and read from the log is reduced by the age of the hold for every granularity (millisecond holds: defect repaired).",
  "C08": "Also: values buffered only with records; readers never return io.ReadFull's error unmapped; oversized values written directly only with the record buffer empty. Readers return a constructed error only about a completely read item; the newest append file is cut back to whole records before appending (three reproduced crash-recovery defects were repaired). Something must truncate the value file after a torn value (known finding: nothing does). A Truncate in AofFile.Open is made on files opened with O_APPEND, or a Seek follows. ReadTail reads the last whole record (defect repaired: a follower refused to start on a torn file).",
  "C09": "Also: receive ring >= queue capacity + 2; live append file touched only under the append mutex (a reproduced race was repaired); the ring examines all 16 id bytes. Pop tests continuity for every cursor and a cursor that does not get its position from the ring is positioned at ring.seq-1 before the answer (defect repaired: full transfer from an empty ring that overflows before the first Pop). The sender writes a record directly to the stream only with its batch buffer empty (flow-graph paths of one loop iteration, excluded by linear entailment over their size tests).",
@@ -123,7 +123,7 @@ ADDED = {
  "C14": "Also: parser cursors (two reproduced chunking defects repaired), key/id normaliser totality, converters define every wire field of the pooled command; no parser field is assigned from a loop-carried local; an empty list completes at the element-count line (defect repaired); the option loop ends after the rest of the arguments is handed to a nested conversion (defect repaired).",
  "C15": "Also: no aliasing of the stored value into results; the pre-operation value is read before it is cleared. Redis-style result writers say error only where the engine's result says so; a binary request's data frame is a private buffer. On a grant the key's depth is incremented before the value operation runs. No comparison mixes the request-type and value-operation enumerations (known finding: PIPELINE). Every allocated value frame that is handed on as a frame has its own length minus four stored in its first four bytes before the hand-over (29 allocations). The engine reads the stored bytes as an integer only under the NUMBER type mark (known finding: it does not - SET n 10, INCRBY n 1 answers 12338).",
  "C16": "Also: replay quiescence is decided on the channels' queue counters (a reproduced start-up compaction race was repaired); nothing retired after publishing may be the published snapshot; log-file lists snapshot-first. HasLock reports a non-LOCK record gone only when no hold with its id exists. A compaction computes its input list once, before the load. The start-up compaction is started only after the replay wait. The temporary snapshot starts empty and the compaction's command carries every field HasLock reads (two defects repaired).",
- "C17": "Also: queue compaction and migration return the reference of every entry they drop. A function that answers a queued request itself tombstones it before scanning the wait queue.",
+ "C17": "Also: queue compaction and migration return the reference of every entry they drop. A function that answers a queued request itself tombstones it before scanning the wait queue. CFG reachability rule: a Lock.locked read used as a counter amount is not reachable from a call that may write Lock.locked (C17/R8).",
  "C18": "Also: AddProxy succeeds only after tracking the proxy. The code that registers a will does not return the registered command object to the pool. The will drain dispatches through the closing protocol object and every tracked proxy is repointed before the list is truncated; no reply is sent on the text reply channel once the connection is closed (a reproduced blocked Close was repaired). A lock command handed to the local engine is not freed by the caller; a re-INIT overwrites the client id only after the previous id's table entry is removed. The proxy re-routes through the client table only for an announced client id (defect repaired). A protocol's closed flag is set only by its own Close (known findings: two ADMIN branches mark the nested text protocol closed from outside, its wills never run).",
  "C03": "Also: the text protocol zeroes its request-id filter before handing a reply to the connection. UpdateLockedLock makes the request's command the hold's command on every path. Text handlers take the engine's answer out of the reply channel (a reproduced stale-reply defect of PUSH was repaired). Dominance rule shared with C02/R7: cancelWaitLock selects the waiter it answers only on the not-answered side of that entry's timeouted test (C03/R10).",
  "C20": "Also: slice-and-cursor queues reset the cursor whenever the slice is re-based; the wait queue's overflow field and its mode sentinel change together. The holder queue's IterNodes follows the index convention of IterNodeQueues. Exit-path rule: Pop/PopRight/Head/Tail of the three deques return the empty answer only after both cursor coordinates were compared (C20/R8). SSA store rule: the five restructure passes free a node only at nodeIndex and lower nodeIndex in the same block (C20/R9).",
